@@ -13,9 +13,9 @@ Definition fbrace_witness : text :=
 
 Theorem real_code_newline_refuted :
   exists s o, nth_error s o = Some cNL
-    /\ outside (scan_regions (table_of [] [] []) s) (N.of_nat o) = true
-    /\ plain_outside (scan_regions (table_of [] [] []) s) s = true
-    /\ nth_error (real_code (table_of [] [] []) s) o = Some cSP.
+    /\ outside (scan_regions (table_of [] [] [] []) s) (N.of_nat o) = true
+    /\ plain_outside (scan_regions (table_of [] [] [] []) s) s = true
+    /\ nth_error (real_code (table_of [] [] [] []) s) o = Some cSP.
 Proof. exists fbrace_witness, 9%nat. vm_compute. repeat split; reflexivity. Qed.
 
 (* x = <dq><dq><dq>a<backslash><dq><dq><dq><dq> NL y = 1 NL : the string region ends at the end of line 1, nothing but plain characters
@@ -28,9 +28,9 @@ Definition adjstr_witness : text :=
 
 Definition merges_after_line1 (s : text) : Prop :=
   exists e, line_end s 1 = Some e
-    /\ outside (scan_regions (table_of [] [] []) s) e = true               (* the newline that ends line 1 is outside every string/comment *)
-    /\ plain_outside (scan_regions (table_of [] [] []) s) s = true         (* no bracket, no backslash outside strings/comments *)
-    /\ exists b rest, custom_generator (table_of [] [] []) (all_lines s) = (1%nat, b) :: rest /\ (1 < b)%nat.
+    /\ outside (scan_regions (table_of [] [] [] []) s) e = true               (* the newline that ends line 1 is outside every string/comment *)
+    /\ plain_outside (scan_regions (table_of [] [] [] []) s) s = true         (* no bracket, no backslash outside strings/comments *)
+    /\ exists b rest, custom_generator (table_of [] [] [] []) (all_lines s) = (1%nat, b) :: rest /\ (1 < b)%nat.
 
 Theorem logical_lines_escaped_quote_refuted : exists s, merges_after_line1 s.
 Proof.
@@ -52,8 +52,8 @@ Definition xid_witness : text := [101; 769; 120; 32; 61; 32; 49; 10].
 
 Example word_at_xid_fixed :
   lex_word_range xid_witness 0 = (0, 3)%nat
-  /\ w_word_range (table_of [] [] [769]) xid_witness 0 = Val (0, 3)%Z
-  /\ w_word_range (table_of [] [] []) xid_witness 0 = Val (0, 1)%Z.
+  /\ w_word_range (table_of [] [] [769] []) xid_witness 0 = Val (0, 3)%Z
+  /\ w_word_range (table_of [] [] [] []) xid_witness 0 = Val (0, 1)%Z.
 Proof. vm_compute. repeat split; reflexivity. Qed.
 
 (* FIXED by rope commit b8cf919.  x = date_from.year : the dotted name around offset 14 is [4,18) and that is now
@@ -63,7 +63,7 @@ Definition fromname_witness : text :=
 
 Example primary_from_fixed :
   lex_chain_range fromname_witness 14 = (4, 18)%nat
-  /\ w_primary_range (table_of [] [] []) fromname_witness 14 = Val (4, 18)%Z.
+  /\ w_primary_range (table_of [] [] [] []) fromname_witness 14 = Val (4, 18)%Z.
 Proof. vm_compute. split; reflexivity. Qed.
 
 (* y(.5).z and y(f<dq>a<backslash><dq>b<dq>).z : the reported start of the expression is negative *)
@@ -71,18 +71,18 @@ Definition dotnum_witness : text := [121; 40; 46; 53; 41; 46; 122; 10].
 Definition fquote_witness : text := [121; 40; 102; 34; 97; 92; 34; 98; 34; 41; 46; 122; 10].
 
 Definition negative_primary_start (code : text) : Prop :=
-  exists o a b, (0 <= o < lenZ code)%Z /\ w_primary_range (table_of [] [] []) code o = Val (a, b) /\ (a < 0)%Z.
+  exists o a b, (0 <= o < lenZ code)%Z /\ w_primary_range (table_of [] [] [] []) code o = Val (a, b) /\ (a < 0)%Z.
 
-Theorem primary_dot_number_refuted : negative_primary_start (real_code (table_of [] [] []) dotnum_witness).
+Theorem primary_dot_number_refuted : negative_primary_start (real_code (table_of [] [] [] []) dotnum_witness).
 Proof. exists 6%Z, (-1)%Z, 7%Z. vm_compute. repeat split; try reflexivity; discriminate. Qed.
 
-Theorem primary_fstring_quote_refuted : negative_primary_start (real_code (table_of [] [] []) fquote_witness).
+Theorem primary_fstring_quote_refuted : negative_primary_start (real_code (table_of [] [] [] []) fquote_witness).
 Proof. exists 11%Z, (-1)%Z, 12%Z. vm_compute. repeat split; try reflexivity; discriminate. Qed.
 
 (* ---- the logical-line simulation statement and its exclusion (Logical.shape_free).
    Both witnesses above violate shape_free, the reference lexer reads them as two statements, rope as one; the same
    texts with one blank between the offending quotes satisfy shape_free and rope agrees with the reference. *)
-Definition u0 : utable := table_of [] [] [].
+Definition u0 : utable := table_of [] [] [] [].
 
 Theorem shape_free_witnesses :
   shape_free u0 (all_lines escq_witness) = false
@@ -107,3 +107,18 @@ Example shape_free_neighbours :
   /\ ref_generator u0 (all_lines adjstr_neighbour) = Some (custom_generator u0 (all_lines adjstr_neighbour))
   /\ custom_generator u0 (all_lines adjstr_neighbour) = [(1, 1); (2, 2)]%nat.
 Proof. vm_compute. repeat split; reflexivity. Qed.
+
+(* FIXED by rope commit 06a46a8.  y = b if 3. else (c).r : at the final r the expression is (c).r = [17,22).
+   History (as-found variant of _follows_dot, rope 2b4039e, Words.w_primary_range_as_found_2b4039e): the reported range was
+   [9,22), which contains the keyword else (offsets 12..16). The current model (and rope) report [17,22). *)
+Definition kwdot_witness : text :=
+  [121; 32; 61; 32; 98; 32; 105; 102; 32; 51; 46; 32; 101; 108; 115; 101; 32; 40; 99; 41; 46; 114; 10].
+
+Theorem primary_keyword_after_float_refuted_as_found :
+  w_primary_range_as_found_2b4039e u0 (real_code u0 kwdot_witness) 21 = Val (9, 22)%Z
+  /\ iskeyword (sliceZ kwdot_witness 12 16) = true.
+Proof. vm_compute. split; reflexivity. Qed.
+
+Example primary_keyword_after_float_fixed :
+  w_primary_range u0 (real_code u0 kwdot_witness) 21 = Val (17, 22)%Z.
+Proof. vm_compute. reflexivity. Qed.
